@@ -105,6 +105,8 @@ class NamespaceFunction(Namespace[symtable.Function]):
 
     is_method: bool = False  # whether the function is a method
     zero_arg_super_used: bool = False  # whether the method uses a zero-argument super
+    # the first positional parameter: what a zero-argument super takes as the instance
+    first_parameter: str | None = None
 
     # list of bodies of converted return nodes
     return_node_bodies: list[list[expr]]
